@@ -448,3 +448,6 @@ def run(repo: Repo, rep: Report, tier: str) -> None:
 
     meta_call_rule(repo, rep, "C17.R10")
     signed_unit_rule(repo, rep, "C17.R11")
+    from .c07 import array_count_fold_rule
+
+    array_count_fold_rule(repo, rep, "C17.R12")
